@@ -809,6 +809,14 @@ def calls_family(out, family, clauses, nontrivial, rule, sample_keys=None, spec=
         for c in sorted(bc)[:8]:
             out.violation(f"{family} case {c}: clause(s) {sorted(bc[c])}", paths.get(c, "n/a"))
         out.add("rejected_cases", len(bc))
+    # behaviour the specification covers beyond the listed properties: reported, never a verdict
+    beyond = [(c, [x for x in cl if x.startswith("beyond_")]) for c, cl, ln in res["rejects"]]
+    beyond = [b for b in beyond if b[1]]
+    out.cov["beyond_properties_rejections"] = out.cov.get("beyond_properties_rejections", 0) + len(beyond)
+    if beyond:
+        print(f"INFO property={out.prop} beyond-properties: {len(beyond)} record(s) rejected by clause(s) "
+              f"{sorted({x for _, cl in beyond for x in cl})} (specified behaviour outside the listed properties; not a verdict), "
+              f"e.g. {family} case {beyond[0][0]}", flush=True)
     return trace, res
 
 
